@@ -186,6 +186,11 @@ Fixpoint pop_while (tag : str) (stack : list ctx) (pending : option (str * conta
       else pop_while tag rest (Some (c_tag c', c_tags c')) root
   end.
 
+(* `len(value) == 3 and value.isascii() and value.isdigit()` and the number it denotes *)
+Definition is_digit (c : N) : bool := (48 <=? c)%N && (c <=? 57)%N.
+Definition three_digits (v : str) : bool := Nat.eqb (length v) 3 && forallb is_digit v.
+Definition digits_value (v : str) : Z := fold_left (fun a c => (a * 10 + Z.of_N (c - 48))%Z) v 0%Z.
+
 Record dst := mkD { d_root : container; d_stack : list ctx; d_type : str; d_ck : bool }.
 
 Inductive fstep := FCont (st : dst) | FReturnBad | FExc (e : exc).
@@ -195,13 +200,13 @@ Definition field_step (G : group_table) (ck_expect : N) (st : dst) (m : str) : f
   match split1 61 m with
   | (_, None) => FReturnBad
   | (tag, Some val) =>
+    match py_int tag with
+    | None => FReturnBad                 (* `int(tag)` fails: the frame is rejected *)
+    | Some _ =>
       (* checksum / msg type bookkeeping *)
       let r1 : result dst :=
         if str_eqb tag T10 then
-          match py_int val with
-          | None => Exc EValue
-          | Some z => Ok (mkD (d_root st) (d_stack st) (d_type st) (Z.eqb (Z.of_N ck_expect) z))
-          end
+          Ok (mkD (d_root st) (d_stack st) (d_type st) (three_digits val && Z.eqb (Z.of_N ck_expect) (digits_value val)))
         else if str_eqb tag T35 then Ok (mkD (d_root st) (d_stack st) val (d_ck st))
         else Ok st in
       match r1 with
@@ -234,8 +239,8 @@ Definition field_step (G : group_table) (ck_expect : N) (st : dst) (m : str) : f
                   match pop_while tag (d_stack st) None (d_root st) with
                   | Exc e => FExc e
                   | Ok ([], root) =>
-                      (* current_context is the message itself *)
-                      if ct_mem tag root then FExc EAttribute
+                      (* every group is closed: the tag belongs to the message itself *)
+                      if ct_mem tag root then FCont (mkD (ct_put tag VErr root) [] (d_type st) (d_ck st))
                       else match ct_set tag val root with
                            | Exc e => FExc e
                            | Ok r => FCont (mkD r [] (d_type st) (d_ck st))
@@ -266,6 +271,7 @@ Definition field_step (G : group_table) (ck_expect : N) (st : dst) (m : str) : f
               end
           end
       end
+    end
   end.
 
 Fixpoint fields_loop (G : group_table) (ck_expect : N) (st : dst) (fs : list str) : fstep :=
@@ -285,18 +291,47 @@ Definition dres := (option message * Z * option str)%type.
 
 Definition zlen {A} (l : list A) : Z := Z.of_nat (length l).
 
+(* the longest proper prefix of the marker (5 .. 1 bytes) the buffer ends with; 0 when there is none:
+   `for tail in range(5, 0, -1): if rawmsg.endswith(b"8=FIX."[:tail])` *)
+Definition ends_with (p s : str) : bool := prefixb (rev p) (rev s).
+Fixpoint marker_tail_from (k : nat) (raw : str) : nat :=
+  match k with
+  | O => O
+  | S k' => if ends_with (firstn k MARK) raw then k else marker_tail_from k' raw
+  end.
+Definition marker_tail (raw : str) : nat := marker_tail_from 5 raw.
+
+(* "\00110=" *)
+Definition CKSEP : str := 1 :: T10 ++ [61].
+
+(* a frame ends with its CheckSum field: the first SOH after the first "<SOH>10=" inside [0, next_msg) *)
+Definition cut_at_checksum (msg : str) (next_msg : nat) : nat :=
+  let head := firstn next_msg msg in
+  match find_sub CKSEP head with
+  | None => next_msg
+  | Some ci =>
+      match find_sub SOHs (skipn (ci + 1) head) with
+      | None => next_msg
+      | Some j => (ci + 1 + j + 1)%nat
+      end
+  end.
+
 Definition decode (G : group_table) (beginstring : str) (raw : str) (silent : bool) : result dres :=
   let bad (n : Z) : result dres := if silent then Ok (None, n, None) else Exc EAssertion in
   match find_sub MARK raw with
-  | None => bad (zlen raw)
+  | None => bad (zlen raw - Z.of_nat (marker_tail raw))%Z
   | Some valid_idx =>
       let msg := skipn valid_idx raw in
-      let next_msg :=
+      let has_next := match find_sub MARK (skipn 5 msg) with Some _ => true | None => false end in
+      let next_msg0 :=
         match find_sub MARK (skipn 5 msg) with
         | Some k => (k + 5)%nat
         | None => length msg
         end in
+      let next_msg := cut_at_checksum msg next_msg0 in
       let encoded := firstn next_msg msg in
+      (* a malformed frame is dropped alone; an accepted frame is consumed as parsed *)
+      let frame_len := (Z.of_nat valid_idx + Z.of_nat next_msg)%Z in
       let fields0 := split_on 1 encoded in
       let fields := match rev fields0 with
                     | [] :: r => rev r
@@ -307,24 +342,25 @@ Definition decode (G : group_table) (beginstring : str) (raw : str) (silent : bo
           match split1 61 f0 with
           | (_, None) => Exc EValue          (* unreachable: f0 starts with "8=FIX." *)
           | (_, Some v0) =>
-              if negb (str_eqb v0 beginstring) then bad (zlen raw)
+              if negb (str_eqb v0 beginstring) then bad frame_len
               else
                 match split1 61 f1 with
-                | (_, None) => bad (zlen raw)
+                | (_, None) => bad frame_len
                 | (tag1, Some v1) =>
-                    if negb (str_eqb tag1 T9) then bad (zlen raw)
+                    if negb (str_eqb tag1 T9) then bad frame_len
                     else
                       match py_int v1 with
-                      | None => Exc EValue
+                      | None => bad frame_len
                       | Some bl =>
+                         if (bl <? 0)%Z then bad frame_len else
                           let msg_length := (zlen f0 + zlen f1 + 9 + bl)%Z in
-                          if (zlen raw <? msg_length)%Z then bad (Z.of_nat valid_idx)
+                          if (zlen raw - Z.of_nat valid_idx <? msg_length)%Z then bad (Z.of_nat valid_idx)
                           else
-                            let parsed := (Z.of_nat valid_idx + msg_length)%Z in
+                            let parsed := frame_len in
                             let ck_expect := ((sum_codes (join SOHs (removelast fields)) + 1) mod 256) in
                             match fields_loop G ck_expect (mkD [] [] UNKNOWN false) fields with
                             | FExc e => Exc e
-                            | FReturnBad => bad (zlen raw)
+                            | FReturnBad => bad frame_len
                             | FCont st =>
                                 if d_ck st then Ok (Some (mkMsg (d_type st) (d_root st)), parsed, Some encoded)
                                 else bad parsed
@@ -332,7 +368,7 @@ Definition decode (G : group_table) (beginstring : str) (raw : str) (silent : bo
                       end
                 end
           end
-      | _ => bad (Z.of_nat valid_idx)
+      | _ => if has_next then bad frame_len else bad (Z.of_nat valid_idx)
       end
   end.
 
@@ -354,7 +390,8 @@ Fixpoint reader_loop (G : group_table) (bs : str) (fuel : nat) (buf : str) (acc 
           match m, raw with
           | Some m, Some r => reader_loop G bs f buf' ((m, r) :: acc)
           | Some m, None => reader_loop G bs f buf' ((m, []) :: acc)
-          | None, _ => (buf', rev acc, 0)
+          | None, _ => if (0 <? n)%Z then reader_loop G bs f buf' acc     (* rejected / skipped: look at what follows *)
+                       else (buf', rev acc, 0)
           end
       end
   end.
